@@ -802,26 +802,47 @@ func runMerge(c *Ctx, prop string) {
 
 	// ---- newTagItems
 	nt := p.Func("file", "newTagItems")
+	wantSites := 1
 	if nt == nil {
-		c.Unk(rule, "file.newTagItems", "anchor", token.NoPos, "tokeniser not found")
-		return
+		// the tokeniser may have been inlined into injectTag: once for the current tag, once for the
+		// injected one; each copy is held to the same contract
+		nt = p.Func("file", "injectTag")
+		wantSites = 2
+		if nt == nil || len(callsIn(nt, "(*regexp.Regexp).FindAllString")) != 2 {
+			c.Unk(rule, "file.newTagItems", "anchor", token.NoPos, "tokeniser not found")
+			return
+		}
 	}
 	c.Funcs[fnName(nt)] = true
 	{
 		var bad []string
 		fa := callsIn(nt, "(*regexp.Regexp).FindAllString")
-		if len(fa) != 1 {
+		if len(fa) != wantSites {
 			bad = append(bad, "tokens are not taken by one FindAllString")
-		} else {
-			if g, ok := fa[0].Call.Args[0].(*ssa.UnOp); !ok {
+		}
+		for _, f1 := range fa {
+			if g, ok := f1.Call.Args[0].(*ssa.UnOp); !ok {
 				bad = append(bad, "tokeniser pattern is not the rTags global")
 			} else if gl, ok := g.X.(*ssa.Global); !ok || gl.Name() != "rTags" {
 				bad = append(bad, "tokeniser pattern is not the rTags global")
 			}
-			if fa[0].Call.Args[1] != nt.Params[0] {
-				bad = append(bad, "the text tokenised is not the tag passed in")
+			if wantSites == 1 {
+				if f1.Call.Args[1] != nt.Params[0] {
+					bad = append(bad, "the text tokenised is not the tag passed in")
+				}
+			} else {
+				// inlined: the text is one of the area's two tag texts (which one: C06-ROLE)
+				okTxt := false
+				if ld, ok := f1.Call.Args[1].(*ssa.UnOp); ok {
+					if fad, ok := ld.X.(*ssa.FieldAddr); ok && (fieldAddrName(fad) == "CurrentTag" || fieldAddrName(fad) == "InjectTag") {
+						okTxt = true
+					}
+				}
+				if !okTxt {
+					bad = append(bad, "the text tokenised is not a tag text of the area")
+				}
 			}
-			if n, ok := constInt(fa[0].Call.Args[2]); !ok || n >= 0 {
+			if n, ok := constInt(f1.Call.Args[2]); !ok || n >= 0 {
 				bad = append(bad, "FindAllString is limited to a fixed number of tokens: further keys of the tag are dropped")
 			}
 		}
@@ -920,7 +941,7 @@ func runMerge(c *Ctx, prop string) {
 				}
 			}
 		}
-		if nk != 1 || nv != 1 {
+		if nk != wantSites || nv != wantSites {
 			bad = append(bad, "key/value construction not recognised")
 		}
 		// every token appended: the append sits in the loop body with no branch around it
